@@ -112,6 +112,8 @@ WF(t) ==
     /\ t.k \in Kinds
     /\ Len(t.ts) \in Arity(t.k)
     /\ t.k = "char" => Len(t.s) = 1
+    /\ \A i \in DOMAIN t.s : Len(t.s[i]) = 1          \* characters, not strings
+    /\ \A i \in DOMAIN t.e : Len(t.e[i]) = 1
     /\ t.k \in {"many", "until"} => Consumes(t.ts[1])
     /\ t.k = "map"  => t.n \in 1..3
     /\ t.k = "lift" => t.n \in FnIds
